@@ -410,6 +410,10 @@ class Contentlines(list):
         """Parses a string into content lines.
         """
         st = to_unicode(st)
+        if st.startswith('\ufeff'):
+            # a byte order mark that survived decoding (bytes input loses it
+            # through the utf-8-sig codec)
+            st = st[1:]
         try:
             # a fold is carriage return followed by either a space or a tab
             unfolded = uFOLD.sub('', st)
